@@ -460,8 +460,14 @@ def gen_case(seed, tier, i):
             g.query()
     if g.ops[-1]['op'] not in ('query', 'project_search'):
         g.query()
+    procs = 2 if rng.random() < 0.3 else 1
+    if procs > 1:
+        # two editor processes share the project and the pickle directory
+        for o in g.ops:
+            if o['op'] in ('query', 'project_search', 'host_restart', 'gc'):
+                o['proc'] = rng.randrange(procs)
     return {'id': 'c09-%d' % i, 'init': init, 'ops': g.ops, 'policy': policy, 'hashseed': rng.randint(0, 2),
-            'knob': knob}
+            'knob': knob, 'procs': procs}
 
 
 def witness_cases():
@@ -600,6 +606,64 @@ def run_segments(case):
         driver.rm_root(root)
 
 
+class _Bad:
+    def __init__(self, why, stderr=''):
+        self.rc, self.timed_out, self.stderr = why, why == 'timeout', stderr
+
+
+def run_multi(case):
+    """two (or more) host processes alive at the same time, sharing the project files and the
+    pickle cache directory but nothing else (own in-memory caches, own helper): ops carry the
+    process that executes them; clock advances and knobs go to every process; file-system ops
+    are executed once (the disk is shared)"""
+    root = driver.new_root('c09m')
+    subs = {}
+    shared = []         # knob/advance ops so far: process-local state a late starter must rebuild
+    started_any = [False]
+    seg = [0]
+
+    def get(p):
+        if p not in subs:
+            spec = {'init': [] if started_any[0] else case['init'], 'ops': list(shared), 'start': 0,
+                    'inv': ['sentinel', 'host']}
+            subs[p] = driver.InteractiveSubject(spec, root, hashseed=case.get('hashseed', 0), seg='p%d-%d' % (p, seg[0]))
+            seg[0] += 1
+            started_any[0] = True
+        return subs[p]
+    events = []
+    try:
+        get(0)
+        for i, op in enumerate(case['ops']):
+            k = op['op']
+            if k in ('advance', 'knob'):
+                ev = None
+                for p in sorted(subs):
+                    ev = subs[p].step(op)
+                    if ev is None:
+                        return None, _Bad(subs[p].failed, subs[p].close())
+                shared.append(op)
+                events.append(ev or {'i': i, 'op': k, 'res': 'ok'})
+            elif k == 'host_restart':
+                p = op.get('proc', 0)
+                if p in subs:
+                    subs.pop(p).close()
+                events.append({'i': i, 'op': k, 'res': 'ok'})
+            else:
+                p = 0 if k == 'fs' else op.get('proc', 0)
+                if k == 'fs' and 0 not in subs:
+                    p = sorted(subs)[0] if subs else 0
+                sub = get(p)
+                ev = sub.step(op)
+                if ev is None:
+                    return None, _Bad(sub.failed, sub.close())
+                events.append(ev)
+        return events, None
+    finally:
+        for sub in subs.values():
+            sub.close()
+        driver.rm_root(root)
+
+
 def run_oracle(case, model, op, hashseed):
     root = driver.new_root('c09o')
     try:
@@ -612,7 +676,7 @@ def run_oracle(case, model, op, hashseed):
 def judge(case):
     stats = collections.Counter()
     ops = case['ops']
-    events, bad = run_segments(case)
+    events, bad = run_multi(case) if case.get('procs', 1) > 1 else run_segments(case)
     if events is None:
         return {'verdict': 'harness_error', 'detail': {'rc': bad.rc, 'to': bad.timed_out, 'stderr': bad.stderr[-1500:]}}
     if len(events) != len(ops):
@@ -645,7 +709,9 @@ def judge(case):
                 stats['pickle_hits'] += cache['pickle_hit']
             if cache.get('evict_branch'):
                 stats['evict_branch'] += 1
-            sigs.add((tuple(sorted(cache)), mutated_since_query, restarted))
+            sigs.add((tuple(sorted(cache)), mutated_since_query, restarted, op.get('proc', 0)))
+            if case.get('procs', 1) > 1:
+                stats['queries_in_multi_process_histories'] += 1
             o = run_oracle(case, model, op, case.get('hashseed', 0))
             stats['oracle_runs'] += 1
             if not o.complete or len(o.events) != 1:
@@ -805,6 +871,7 @@ class C09(base.Engine):
             'oracle_processes': tot['oracle_runs'],
             'mutations_by_kind': {k[4:]: v for k, v in tot.items() if k.startswith('mut:')},
             'host_restarts': tot['host_restarts'],
+            'queries_in_histories_with_two_live_processes': tot['queries_in_multi_process_histories'],
             'warm_pickle_hits': tot['pickle_hits'],
             'eviction_branch_hits': tot['evict_branch'],
             'histories_by_clock_policy': dict(pol),
